@@ -292,6 +292,7 @@ fn replay(args: &[String]) -> Result<i32, String> {
         _ if case.act == "zst" => with_n!(n, [zst::replay_zst], &case),
         _ if case.act == "huge-full" => c19::replay_c19(&case),
         "C01" | "C02" | "C11" | "C04" if case.extra == "io" => with_n!(n, [io::replay_u8_twin], &case),
+        "C14" | "C17" if case.extra.starts_with("utf8") => with_n!(n, [io::replay_utf8], &case),
         "C17" if case.extra == "io-alloc" => with_n!(n, [io::replay_io], &case),
         "C17" | "C20" if n == 72 => checks::replay_bfs::<72>(&case),
         "C01" | "C02" | "C03" | "C11" | "C17" | "C20" => with_n!(n, [checks::replay_bfs], &case),
@@ -316,6 +317,9 @@ fn main() {
     std::panic::set_hook(Box::new(|info| {
         let loc = info.location().map(|l| format!("{}:{}", l.file(), l.line())).unwrap_or_default();
         let _ = LAST_PANIC.try_with(|l| *l.borrow_mut() = loc);
+        if std::env::var_os("CBX_BACKTRACE").is_some() {
+            eprintln!("panic at {:?}\n{}", info.location(), std::backtrace::Backtrace::force_capture());
+        }
     }));
     // crash channel + watchdog: a single call into the crate that does not return within 20 s
     install_crash_channel();
